@@ -316,7 +316,7 @@ def parts(tier):
                 CH("two_generators", "vflib.props.c10:scen_two_generators", {}, shards=16, timeout=170, path_timeout=30)]
     return [SMT("limits", "vflib.props.c10:kernel_limits", {}, timeout=900),
             SMT("escaping", "vflib.props.c10:kernel_escape", {}, timeout=200, mode="SMT-S"),
-            CH("e2e", "vflib.props.c10:scen_e2e", {"counts": list(range(1, 18)), "limits": list(range(0, 18))}, shards=16, timeout=2400, path_timeout=30),
+            CH("e2e", "vflib.props.c10:scen_e2e", {"counts": list(range(1, 18)), "limits": list(range(0, 18))}, shards=16, timeout=900, path_timeout=30),
             CH("two_generators", "vflib.props.c10:scen_two_generators", {}, shards=16, timeout=600, path_timeout=30)]
 
 
